@@ -57,4 +57,21 @@ theorem C06_go2lean_bool_unmarshal (bs vals : List Nat) (i : Nat) (hi : i < bs.l
     Go.protomarshal.UnmarshalValue_boolElem bs (i : Int) vals =
       some { vals := vals ++ [clampBool bs[i]], v := clampBool bs[i] } := pm_bool_unmarshal bs vals i hi
 
+/-! `Value.MarshalAppend`: the eight fixed-width scalar cases and the bool array (blocks of unit `protomarshal`).
+PROPERTY THEOREMS (audited by ./check): C06_go2lean_scalar_marshal, C06_go2lean_sliceBool_marshal -/
+
+theorem C06_go2lean_scalar_marshal (arch n : Nat) (b : List Nat) :
+    (Go.protomarshal.Value_MarshalAppend_int16 arch b n).ret = some (b ++ enc 2 arch n) ∧
+    (Go.protomarshal.Value_MarshalAppend_uint16 arch b n).ret = some (b ++ enc 2 arch n) ∧
+    (Go.protomarshal.Value_MarshalAppend_int32 arch b n).ret = some (b ++ enc 4 arch n) ∧
+    (Go.protomarshal.Value_MarshalAppend_uint32 arch b n).ret = some (b ++ enc 4 arch n) ∧
+    (Go.protomarshal.Value_MarshalAppend_float32 arch b n).ret = some (b ++ enc 4 arch n) ∧
+    (Go.protomarshal.Value_MarshalAppend_int64 arch b n).ret = some (b ++ enc 8 arch n) ∧
+    (Go.protomarshal.Value_MarshalAppend_uint64 arch b n).ret = some (b ++ enc 8 arch n) ∧
+    (Go.protomarshal.Value_MarshalAppend_float64 arch b n).ret = some (b ++ enc 8 arch n) := pm_scalar_marshal arch n b
+
+theorem C06_go2lean_sliceBool_marshal (b vals : List Nat) (hv : ∀ x ∈ vals, x < 256) :
+    Go.protomarshal.Value_MarshalAppend_sliceBool b vals =
+      some { b := b ++ vals.map boolByte, ret := some (b ++ vals.map boolByte) } := pm_sliceBool_marshal b vals hv
+
 end Fit.C06
